@@ -206,6 +206,11 @@ def check(ctx):
         ps = summarise(ctx, fn, policy=default_policy, oracle=val)
         outs = {('raise:' + p.state.exc[1]) if p.outcome == 'raise' else 'ok' for p in ps}
         want = {'raise:ValueError'} if exp == 'raise' else {'ok'}
+        if len(outs) > 1 and not val.unknown and exp == 'raise':
+            # nothing else was consulted, and still one way of making the call is accepted (arguments handed over by keyword instead of by position, say)
+            ctx.violation('C12.S3', 'an end earlier than the start is rejected with ValueError', fn.site(),
+                          'outcomes %s: with the same ordering of the bounds one way of calling the constructor is refused and another is accepted' % sorted(outs), key='C12.S3|%s' % rel)
+            continue
         if len(outs) > 1:
             # the outcome depends on something besides the ordering of the two bounds (e.g. whether the computed range is empty): not decided here
             ctx.undecided('C12.S3', 'construction is decided by the ordering of start and end alone', fn.site(), 'end %s start: outcomes %s depend on %s' % (rel, sorted(outs), sorted(set(val.unknown))[:3]))
@@ -253,6 +258,9 @@ def check(ctx):
             iterp = summarise(ctx, CLS + '.__iter__', policy=default_policy)
             flds = sorted({s_[2] for q in iterp for e_ in q.events if e_.kind == 'loop' for b_ in e_.paths for c_, _, _ in b_.conds for s_ in T.subterms(c_)
                            if s_[0] == 'attr' and s_[1] == V('self') and s_[2] not in ('pre_market', 'post_market', 'business_days')})
+            # (a constructor argument kept as it was given - the end of the range, say - is not such state: selecting events by it is read, and deviates)
+            plain = {w_.loc[2] for q in nps for w_ in heap_writes(q) if w_.loc[0] == 'attr' and w_.loc[1] == V('self') and w_.value is not None and w_.value[0] == 'var'}
+            flds = [f_ for f_ in flds if f_ not in plain]
             if flds:
                 ctx.undecided('C12.S2', 'events of a day are decided by the two flags alone (pre=%s, post=%s)' % (pre, post), where, 'the yields are selected by self.%s' % ', self.'.join(flds))
                 continue
